@@ -538,6 +538,15 @@ pub fn eval_unit_name(
                         .collect(),
                 };
                 let res = left.pow(right).map_err(QueryError::generic)?;
+                if let Numeric::Float(value) = res.value {
+                    if !value.is_finite() {
+                        return Err(QueryError::generic(format!(
+                            "Conversion target is not a finite number: <{}> ^ <{}>",
+                            left.show(ctx),
+                            right.show(ctx)
+                        )));
+                    }
+                }
                 Ok((
                     res.unit
                         .iter()
